@@ -817,7 +817,11 @@ Eval(n, env, st) ==
                 \* min(a, b, ..) / max(a, b, ..): would evaluating the first argument last be observable?
                 mm == n.a[1].t = "name" /\ n.a[1].s \in {"min", "max"} /\ Len(n.a) >= 3
                 alt == EvalList(<<n.a[1]>> \o SubSeq(n.a, 3, Len(n.a)) \o <<n.a[2]>>, 1, env, st, <<>>)
+                \* the operand (index in n.a) whose evaluation raised, in source order and in the other order
+                failRef == Len(r.vs) + 1
+                failAlt == LET q == Len(alt.vs) + 1 IN IF q = 1 THEN 1 ELSE IF q = Len(n.a) THEN 2 ELSE q + 1
                 differs == \/ alt.st.log # r.st.log \/ alt.st.exc # r.st.exc \/ alt.st.esite # r.st.esite
+                           \/ (Bad(r.st) /\ failRef # failAlt)
                            \/ alt.st.glob # r.st.glob \/ alt.st.oom # r.st.oom
                            \/ (~Bad(r.st) /\ alt.vs # <<r.vs[1]>> \o SubSeq(r.vs, 3, Len(r.vs)) \o <<r.vs[2]>>)
                 r1 == IF mm /\ differs THEN [st |-> Flag(r.st, {"minmax"}), vs |-> r.vs] ELSE r
